@@ -5,7 +5,7 @@ import json, os
 import vp, render_glue as G
 
 
-def run_theme(C, theme, maxtok, traced=True, workers=4, simulate=None, depth=None, tag=None, also_str=False):
+def run_theme(C, theme, maxtok, traced=True, workers=4, simulate=None, depth=None, tag=None, also_str=False, also_api=False):
     tag = tag or ("render-%s-%d" % (theme, maxtok))
     cfgname = "MC_Render_%s_run" % theme
     with open(os.path.join(vp.SPEC, cfgname + ".cfg"), "w") as f:
@@ -23,17 +23,37 @@ def run_theme(C, theme, maxtok, traced=True, workers=4, simulate=None, depth=Non
                 seen.add(k)
                 uniq.append(v)
         vecs = uniq
-    jobs, meta = [], []
+    jobs, meta, api_jobs = [], [], []
     for vi, v in enumerate(vecs):
         for ei, env in enumerate(envs):
             suffix = ".html" if env["ae"] else ".txt"
             src = G.source(v["p"], texts, suffix)
             tpls = [["t" + suffix, src]] + [[n + suffix, G.source(p, texts, suffix)] for n, p in sorted(lib.items())]
+            if also_api:
+                # the other entry points see the same scopes: render_to, and the program as the body of a block through
+                # render_block / render_block_to (a second, untraced batch)
+                tb = tpls + [["b" + suffix, "{% block k %}" + src + "{% endblock %}"]]
+                api_jobs.append({"cfg": {"probes": True, "autoescape": [".html"], "gctx": G.context(env["gctx"]), "escape": env.get("esc", "html")}, "ctx": G.context(env["ctx"]),
+                                 "steps": [{"op": "add", "tpls": list(reversed(tb))}, {"op": "render", "name": "t" + suffix},
+                                           {"op": "render", "name": "t" + suffix, "to": {}}, {"op": "render_block", "name": "b" + suffix, "block": "k"},
+                                           {"op": "render_block", "name": "b" + suffix, "block": "k", "to": {}}]})
             jobs.append({"cfg": {"probes": True, "autoescape": [".html"], "gctx": G.context(env["gctx"]), "escape": env.get("esc", "html")}, "ctx": G.context(env["ctx"]),
                          "steps": [{"op": "add", "tpls": list(reversed(tpls))}, {"op": "render", "name": "t" + suffix, "expect_ae": env["ae"]}]
                                   + ([{"op": "render_str", "src": src, "auto": env["ae"], "expect_ae": env["ae"]}] if also_str else [])})
             meta.append((vi, ei, src))
     res = vp.traced(jobs, C, tag) if traced else vp.run_jobs(jobs, tag=tag, timeout=3000)
+    api_res = vp.run_jobs(api_jobs, tag=tag + "-api", timeout=3000) if api_jobs else []
+    for (vi, ei, src), ar, aj in zip(meta, api_res, api_jobs):
+        if vecs[vi]["r"][ei]["r"] == "unspec" or not ar[0].get("ok"):
+            continue
+        C.count()
+        x = ar[1]
+        base = (x.get("ok"), x.get("out") if x.get("ok") else None)
+        for y, st in zip(ar[2:], aj["steps"][2:]):
+            got = y.get("out") if "out" in y else y.get("accepted")
+            if (y.get("ok"), got if y.get("ok") else None) != base:
+                C.violation({"theme": theme, "src": src, "env": ei, "kind": "entry-point", "op": st["op"], "to": "to" in st}, "%r (env %d): %s%s gives %r, render gives %r" % (
+                    src, ei, st["op"], "_to" if "to" in st else "", got if y.get("ok") else "error: " + (y.get("msg") or y.get("disp", ""))[:80], x.get("out") if x.get("ok") else "error"), {"job": aj, "got": y})
     for (vi, ei, src), rr, job in zip(meta, res, jobs):
         C.count()
         exp = dict(vecs[vi]["r"][ei])
